@@ -74,6 +74,9 @@ func c12Backend(addr string) {
 
 func c12RaceRun(c *Ctx) {
 	b := 2
+	if c.Thorough() {
+		b = 3
+	}
 	ExploreSchedules(c, "received-on", b, func(p []int) SchedResult { return c12SchedExec("on", p) })
 	ExploreSchedules(c, "received-off", b, func(p []int) SchedResult { return c12SchedExec("off", p) })
 }
